@@ -72,6 +72,7 @@ type FnVC struct {
 	panicPoints  []panicPoint
 	pendingSite  string
 	immut        map[*ssa.Alloc]ssa.Value
+	siteOrd      map[ssa.Instruction]int
 	pendingArgs  []TV
 	closures     map[ssa.Value]*ssa.MakeClosure
 	warnings     []string
@@ -491,6 +492,15 @@ func (vc *FnVC) translate() (err error) {
 			}
 			vc.emit(fmt.Sprintf("; requires#%d %s", i+1, r.Text))
 			vc.assume("true", tv.t)
+		}
+		for i, r := range vc.ct.Assumes {
+			tv, err := entryEnv.tr(r.E)
+			if err != nil {
+				return fmt.Errorf("%s: assume#%d: %v", vc.qualName(), i+1, err)
+			}
+			vc.emit(fmt.Sprintf("; assume#%d %s", i+1, r.Text))
+			vc.assume("true", tv.t)
+			vc.trustedUsed[fmt.Sprintf("assume clause of %s: %s", vc.qualName(), r.Text)] = true
 		}
 		// vacuity: the precondition must be satisfiable
 		o := vc.oblige("cover", "cover.requires", "true", "true", fn.Pos(), "precondition satisfiable")
